@@ -16,6 +16,9 @@ simplices, all singleton simplices}) with ALL orientation assignments when <= 10
 orientation (the full tetrahedron has 11: 64 seeded assignments + all-0 +
 all-1 + default); kind "enum-labels" repeats the same families under every label kind x simplex-ID
 kind with sampled orientations; kind "random" draws complexes on 5-7 vertices.
+Kind "scale": a few large complexes whose sizes depend on idx only - a vertex in 150 / 300 / 390 edges, an edge in 130
+triangles, vertex degrees 127..129 and edges in 125 / 126 triangles - under the default and one seeded typed orientation assignment, same oracle,
+orders 0..3 (trigger tag "scale").
 Key = "<function>|<trigger class>|<clause>".
 """
 from itertools import combinations, product
@@ -94,8 +97,8 @@ N_ENUM = 254  # 127 families x {no singleton simplices, all}
 
 def plan(tier):
     if tier == "quick":
-        return {"enum": N_ENUM, "enum-labels": N_ENUM * 5, "random": 300, "sequence": 60}
-    return {"enum": N_ENUM, "enum-labels": N_ENUM * 5 * 8, "random": 48000, "sequence": 6000}
+        return {"enum": N_ENUM, "enum-labels": N_ENUM * 5, "random": 300, "sequence": 60, "scale": 4}
+    return {"enum": N_ENUM, "enum-labels": N_ENUM * 5 * 8, "random": 48000, "sequence": 6000, "scale": 64}
 
 
 def _sequence_case(mon, idx, rng):
@@ -134,6 +137,7 @@ def floors(tier):
         "product:order>=2": 1000, "product-with-2-simplices-and-custom-orientation": 500,
         "hodge:checked": 3000, "kernel:checked": 1000, "kernel:disconnected": 200,
         "orientation:bool-values": 100, "index=False": 1000,
+        "scale:complexes-completed": 2, "scale:vertex-degree>=128": 2, "scale:vertex-degree>=256": 1, "scale:edge-in>=126-triangles": 1, "scale:assignments": 4,
         **{f"orientation:values:{tname(t)}": 1500 for t in VALUE_TYPES},
         **{f"order-arg:{tname(t)}": 20000 for t in set(ORDER_TYPES)},
     }
@@ -243,7 +247,7 @@ class Fired(Exception):
     pass
 
 
-def check_complex(mon, S, orients, lk, desc, count_prefix=None):
+def check_complex(mon, S, orients, lk, desc, count_prefix=None, tag=None):
     """All clauses for complex S under each assignment in `orients` (None = default).  Returns number of assignments checked."""
     nodes = list(S.nodes)
     mem = {e: frozenset(m) for e, m in S.edges.members(dtype=dict).items()}
@@ -256,7 +260,7 @@ def check_complex(mon, S, orients, lk, desc, count_prefix=None):
     G.add_edges_from(tuple(mem[e]) for e in byorder.get(1, []))
     ncc = nx.number_connected_components(G)
     struct = (tuple(map(repr, nodes)), tuple((repr(e), tuple(sorted(map(repr, m)))) for e, m in mem.items()))
-    mixed = "mixed-labels" if lk == "mixed" else None
+    mixed = ",".join(x for x in (tag, "mixed-labels" if lk == "mixed" else None) if x) or None
 
     def members_of(k, ident):
         return frozenset([ident]) if k == 0 else mem[ident]
@@ -404,9 +408,133 @@ def assignments(rng, oriented, how, rot=0):
         yield typed(oriented, [rng.randint(0, 1) for _ in oriented], VALUE_TYPES[(rot + 2 + j) % n])
 
 
+# ---------------------------------------------------------------------------------
+# kind "scale": a vertex in 150 / 300 edges, an edge in 130 triangles, counts exactly at 126..129 (narrow-dtype boundaries)
+# ---------------------------------------------------------------------------------
+SCALE_SHAPES = ("star-150", "star-300", "book-130+star-260", "boundary-counts")
+_BLAS_SINGLE = None
+
+
+def single_thread_blas():
+    """Performance only (no decision depends on it): eigvalsh / matrix_rank of a 1000 x 1000 matrix take seconds with the default
+    OpenBLAS thread count on a loaded box (oversubscription) and milliseconds with one thread; threadpoolctl is not installed."""
+    global _BLAS_SINGLE
+    if _BLAS_SINGLE is None:
+        import ctypes
+
+        _BLAS_SINGLE = []
+        try:
+            with open("/proc/self/maps") as f:
+                paths = {line.split()[-1] for line in f if "openblas" in line and ".so" in line}
+            for path in paths:
+                lib = ctypes.CDLL(path)
+                for name in ("openblas_set_num_threads", "openblas_set_num_threads64_", "scipy_openblas_set_num_threads", "scipy_openblas_set_num_threads64_"):
+                    try:
+                        getattr(lib, name)(1)
+                        _BLAS_SINGLE.append(name)
+                    except AttributeError:
+                        pass
+        except Exception:
+            pass
+    return _BLAS_SINGLE
+
+
+def scale_family(idx):
+    """(n, simplices of size >= 2 as frozensets of vertex indices, downward closed).  Sizes depend on idx only."""
+    shape, v = SCALE_SHAPES[idx % 4], idx // 4
+    E, T = set(), set()
+    nxt = [0]
+
+    def fresh(k):
+        out = list(range(nxt[0], nxt[0] + k))
+        nxt[0] += k
+        return out
+
+    def star(deg, leaves=None):
+        (c,) = fresh(1)
+        for x in leaves[:deg] if leaves else fresh(deg):
+            E.add(frozenset((c, x)))
+        return c
+
+    def book(t, apexes=None):
+        a, b = fresh(2)
+        E.add(frozenset((a, b)))
+        for c in apexes[:t] if apexes else fresh(t):
+            T.add(frozenset((a, b, c)))
+            E.update((frozenset((a, c)), frozenset((b, c))))
+        return a, b
+
+    if shape == "star-150":
+        star(150 + v)
+        book(2)  # a second component with triangles
+        fresh(1)  # an isolated vertex
+    elif shape == "star-300":
+        star(300 + v)
+        a, b = fresh(2)
+        E.add(frozenset((a, b)))
+    elif shape == "book-130+star-260":
+        a, b = book(130 + v)
+        for x in fresh(260):
+            E.add(frozenset((a, x)))
+        star(3)
+    else:
+        pool = fresh(129 + v)
+        for deg in (127, 128, 129):
+            star(deg, pool)
+        apex = fresh(126)
+        for t in (125, 126):
+            book(t, apex)
+        fresh(2)
+    return nxt[0], tuple(sorted(E | T, key=lambda s: (len(s), sorted(s)))), shape
+
+
+def run_scale(mon, idx, rng):
+    single_thread_blas()
+    n, fam, shape = scale_family(idx)
+    lk = ("int", "str", "mixed", "negative")[(idx // 4 + idx) % 4]
+    if lk == "int":
+        labels = list(range(n))
+    elif lk == "str":
+        labels = [f"n{i}" for i in range(n)]
+    elif lk == "negative":
+        labels = [3 * i - n for i in range(n)]
+    else:
+        labels = [i if i % 3 else f"s{i}" for i in range(n)]
+    rng.shuffle(labels)
+    ik = ("auto", "explicit-int", "explicit-str", "explicit-mixed")[idx % 4]
+    S = build(rng, labels, fam, [0, n - 1] if idx % 2 else [], ik)
+    desc = f"kind=scale idx={idx} shape={shape} labels={lk} ids={ik} vertices={n} simplices={len(fam)}"
+    if S is None:
+        mon.note("scale:discarded")
+        return
+    deg, tri = {}, {}
+    for s_ in fam:
+        if len(s_) == 2:
+            for x in s_:
+                deg[x] = deg.get(x, 0) + 1
+        elif len(s_) == 3:
+            for e in combinations(sorted(s_), 2):
+                tri[e] = tri.get(e, 0) + 1
+    mon.note(f"scale:shape:{shape}")
+    for bound in (128, 256):
+        if max(deg.values()) >= bound:
+            mon.note(f"scale:vertex-degree>={bound}")
+    if tri and max(tri.values()) >= 126:
+        mon.note("scale:edge-in>=126-triangles")
+    oriented = [e for e, m in S.edges.members(dtype=dict).items() if len(m) > 1]
+    orients = [None, typed(oriented, [rng.randint(0, 1) for _ in oriented], VALUE_TYPES[idx % len(VALUE_TYPES)])]
+    done, ok = check_complex(mon, S, orients, lk, desc, tag="scale")
+    mon.note("scale:assignments", done)
+    if ok:
+        mon.note("scale:complexes-completed")
+        mon.sample(f"{desc} under {done} orientation assignments")
+
+
 def run_case(mon, kind, idx, rng):
     if kind == "sequence":
         return _sequence_case(mon, idx, rng)
+    if kind == "scale":
+        return run_scale(mon, idx, rng)
     if kind in ("enum", "enum-labels"):
         j = idx % N_ENUM if kind == "enum" else (idx // 5) % N_ENUM
         n, fam = fams()[j // 2]
